@@ -5,7 +5,7 @@
    as "modelled"; the repair wrapped them in sorted(), they are now required to be class 1, see below.) [mstate_accounted]: a module-level object may be mutated by a
    function only if it is the verification hook's own log (written only under REDUINO_VERIF=1, never read). *)
 From Coq Require Import ZArith List Bool String.
-From RV Require Import Base.Wire Base.Text Lang.Order Lang.DevSession Gen.SetSites.
+From RV Require Import Base.Wire Base.Text Lang.Order Lang.DevSession Lang.MemoSession Gen.SetSites.
 Import ListNotations.
 Open Scope Z_scope.
 
@@ -63,3 +63,11 @@ Definition gen_default (method : Z) (k : key) : option mobj :=
   end.
 
 Definition cfg_gen : cfg := mk_cfg gen_pre (gen_default 1) (gen_default 0).
+
+(* ---------------------------------------------------------------- sorted() with a key, memoised helpers *)
+(* a sorted() over a set must not take a key: with a key that is not injective on the names, tied names keep the set's iteration
+   order (Lang/SortKey.v) *)
+Definition site_keyless (s : site) : bool := negb (s_keyed s).
+
+(* the helper calls that go through a memo table in the current source: those whose function carries a cache decorator *)
+Definition cached_gen (c : hcall) : bool := tmem (helper_name c) (map (fun e => snd (fst e)) cache_sites).
